@@ -1622,6 +1622,16 @@ func (p *pkgInfo) emitBuildResetFact(o *out) {
 				_, isSlice := v.Args[0].(*ast.ArrayType)
 				return isSlice
 			}
+			// append([]T(nil), x…): a fresh backing array as well
+			if id, ok := v.Fun.(*ast.Ident); ok && id.Name == "append" && len(v.Args) > 0 {
+				if conv, ok := v.Args[0].(*ast.CallExpr); ok && len(conv.Args) == 1 {
+					if _, isSlice := conv.Fun.(*ast.ArrayType); isSlice {
+						if nilId, ok := conv.Args[0].(*ast.Ident); ok && nilId.Name == "nil" {
+							return true
+						}
+					}
+				}
+			}
 		}
 		return false
 	}
